@@ -52,17 +52,19 @@ def run(ctx: Ctx):
     cols = set(written)
     col.floor("csv_columns", len(cols), 4)
     # the row writer formats info[k] with fmt_dict[k] for the same k over the column list
-    wrs = [c for c in own_calls(hist.node) if isinstance(c.func, ast.Attribute) and c.func.attr == "writerow"]
-    ok = False
-    for c in wrs:
-        a = c.args[0] if c.args else None
-        if isinstance(a, ast.ListComp) and len(a.generators) == 1 and isinstance(a.generators[0].target, ast.Name):
-            k = a.generators[0].target.id
-            elt = a.elt
-            if (isinstance(elt, ast.Call) and isinstance(elt.func, ast.Attribute) and elt.func.attr == "format"
-                    and u(elt.func.value) == f"self.fmt_dict[{k}]" and len(elt.args) == 1
-                    and isinstance(elt.args[0], ast.Subscript) and u(elt.args[0].slice) == k):
-                ok = True
+    # every value of the row is formatted by its own column's format: fmt_dict[k].format(<row>[k]) with one k bound by a
+    # comprehension or a for loop (the row may be built in place or appended to a list first)
+    fmts = [c for c in own_calls(hist.node) if isinstance(c.func, ast.Attribute) and c.func.attr == "format"
+            and isinstance(c.func.value, ast.Subscript) and attr_chain(c.func.value.value) == "self.fmt_dict"]
+    bound = set()
+    for n in ast.walk(hist.node):
+        if isinstance(n, ast.comprehension) and isinstance(n.target, ast.Name):
+            bound.add(n.target.id)
+        if isinstance(n, ast.For) and isinstance(n.target, ast.Name):
+            bound.add(n.target.id)
+    ok = bool(fmts) and all(
+        isinstance(c.func.value.slice, ast.Name) and c.func.value.slice.id in bound and len(c.args) == 1
+        and isinstance(c.args[0], ast.Subscript) and u(c.args[0].slice) == c.func.value.slice.id for c in fmts)
     col.ob("G13", "S1", f"{W('save_info_to_hist')}::row=fmt[k].format(info[k])", ok,
            "the history row is not written as fmt_dict[k].format(info[k]) over the column list "
            "(a value written under another column's format or key)", rel, hist.line)
@@ -70,13 +72,25 @@ def run(ctx: Ctx):
     parsed: Dict[str, Tuple[str, str]] = {}
     rd_cache = ReachingDefs(cache.node)
     seed_keys = None
+    # the two row displays of update_cache: the epoch-0 row ("epoch": 0) and the row parsed from the file; either may be
+    # stored into self.cache_hist directly or through a local
     for n in own_nodes(cache.node):
-        if isinstance(n, ast.Assign) and isinstance(n.value, ast.Dict) and isinstance(n.targets[0], ast.Subscript) \
-                and attr_chain(n.targets[0].value) == "self.cache_hist":
-            keys = [k.value for k in n.value.keys if isinstance(k, ast.Constant)]
-            if u(n.targets[0].slice) == "0":
-                seed_keys = keys
-                continue
+        if not (isinstance(n, ast.Assign) and isinstance(n.value, ast.Dict)):
+            continue
+        dkeys = {k.value: v for k, v in zip(n.value.keys, n.value.values) if isinstance(k, ast.Constant)}
+        if "epoch" not in dkeys:
+            continue
+        tgt = n.targets[0]
+        reaches = (isinstance(tgt, ast.Subscript) and attr_chain(tgt.value) == "self.cache_hist") or (
+            isinstance(tgt, ast.Name) and any(
+                isinstance(m, ast.Assign) and isinstance(m.targets[0], ast.Subscript) and attr_chain(m.targets[0].value) == "self.cache_hist"
+                and isinstance(m.value, ast.Name) and m.value.id == tgt.id for m in own_nodes(cache.node)))
+        if not reaches:
+            continue
+        if isinstance(dkeys["epoch"], ast.Constant) and dkeys["epoch"].value == 0:
+            seed_keys = list(dkeys)
+            continue
+        if True:
             for k, v in zip(n.value.keys, n.value.values):
                 if not isinstance(k, ast.Constant):
                     continue
@@ -100,9 +114,10 @@ def run(ctx: Ctx):
                sample=dict(column=k, parsed_from=src, conv=conv))
     # user-defined entries: restored for EVERY row (inside the reader loop), from the same-named column, with the
     # declared type; no variable of the reader loop is used after the loop (stale last row)
-    row_loops = [n for n in own_nodes(cache.node) if isinstance(n, ast.For) and isinstance(n.iter, ast.Name)
-                 and any(isinstance(d.value, ast.Call) and call_name(d.value).endswith("DictReader")
-                         for d in rd_cache.defs_of(n.iter))]
+    row_loops = [n for n in own_nodes(cache.node) if isinstance(n, ast.For) and (
+        (isinstance(n.iter, ast.Name) and any(isinstance(d.value, ast.Call) and call_name(d.value).endswith("DictReader")
+                                              for d in rd_cache.defs_of(n.iter)))
+        or (isinstance(n.iter, ast.Call) and call_name(n.iter).endswith("DictReader")))]
     if len(row_loops) != 1:
         raise AnalysisError("C15: the csv.DictReader row loop of update_cache was not found")
     rl = row_loops[0]
@@ -125,14 +140,21 @@ def run(ctx: Ctx):
             for st_ in n.body:
                 if isinstance(st_, ast.Assign) and isinstance(st_.targets[0], ast.Subscript):
                     t = st_.targets[0]
-                    okk = u(t.slice) == kn and u(t.value) in {f"self.cache_hist[{e_}]" for e_ in row_epoch_names} and isinstance(st_.value, ast.Call) \
+                    # the row being restored: self.cache_hist[<row epoch>] itself or a local that is stored there
+                    row_targets = {f"self.cache_hist[{e_}]" for e_ in row_epoch_names}
+                    for m_ in ast.walk(rl):
+                        if isinstance(m_, ast.Assign) and isinstance(m_.targets[0], ast.Subscript) and u(m_.targets[0]) in set(row_targets) \
+                                and isinstance(m_.value, ast.Name):
+                            row_targets.add(m_.value.id)
+                    okk = u(t.slice) == kn and u(t.value) in row_targets and isinstance(st_.value, ast.Call) \
                         and u(st_.value.func) == tn and len(st_.value.args) == 1 and isinstance(st_.value.args[0], ast.Subscript) \
                         and u(st_.value.args[0].slice) == kn and u(st_.value.args[0].value) == rl.target.id
                     urest.append(okk)
     col.ob("G13", "S1", f"{W('update_cache')}::user-entries-restored-per-row", urest == [True],
            "user-defined entries are not restored, for every history row, as type(row[name]) under their own name",
            rel, rl.lineno, sample=urest)
-    wr_user = any(isinstance(n, ast.AugAssign) and "user_entry_types" in u(n.value) for n in own_nodes(hist.node))
+    wr_user = any(isinstance(n, ast.AugAssign) and "user_entry_types" in u(n.value) for n in own_nodes(hist.node)) or any(
+        isinstance(c.func, ast.Attribute) and c.func.attr == "extend" and "user_entry_types" in u(c) for c in own_calls(hist.node))
     col.ob("G13", "S1", f"{W('save_info_to_hist')}::user-entries-written", wr_user,
            "user-defined entries are not appended to the written column list", rel, hist.line)
     col.ob("G13", "S1", f"{W('update_cache')}::epoch0-row-keys", set(seed_keys) == cols,
@@ -211,6 +233,9 @@ def run(ctx: Ctx):
                     continue
                 isitem = isinstance(node, ast.Subscript) and attr == "cache_hist"
                 ok = False
+                if isitem and name in ("update_for_epoch", "save_info_to_hist") and not isinstance(node.slice, ast.Name):
+                    # the key written directly: row['epoch'] / the next epoch
+                    ok = u(node.slice).endswith("['epoch']") or u(node.slice) == "self.get_last_epoch() + 1"
                 if isitem and name in ("update_for_epoch", "save_info_to_hist") and isinstance(node.slice, ast.Name):
                     rdm_ = ReachingDefs(f.node)
                     # the subscript node is a Store; look up the key name's defs via a Load twin
@@ -353,16 +378,13 @@ def _control_block(upd, rd, pm, P, L, rowvar):
         out["pred"] = u(pred_node)
         out["shape"] = (None, out["pred"], ())
         return out
-    out["pred"] = u(pred_node).replace(refvar.id + "[", "REF[")
+    from sa.inline import Inliner
+    inl = Inliner(upd.node, rd, keep={refvar.id, rowvar})  # temporaries such as `patience = self.params.x_patience` are looked through
+    out["pred"] = inl.text(pred_node).replace(refvar.id + "[", "REF[")
     for d in rd.defs_of(refvar):
         v = d.value
         if isinstance(v, ast.Call) and isinstance(v.func, ast.Attribute) and v.func.attr == "get_info" and v.args:
-            e = v.args[0]
-            if isinstance(e, ast.Name):
-                ds = list(rd.defs_of(e))
-                if len(ds) == 1 and ds[0].value is not None:
-                    e = ds[0].value
-            out["ref_expr"] = e
+            out["ref_expr"] = inl.expand(v.args[0])
     # the chain: the If statement whose elif test is the predicate
     st = pm.get(pred_node)
     while st is not None and not isinstance(st, ast.If):
@@ -381,7 +403,7 @@ def _control_block(upd, rd, pm, P, L, rowvar):
                 and isinstance(st.body[0].op, ast.Sub) and u(st.body[0].value) == "1":
             chain.append("patience-=1")
         if len(st.orelse) == 1 and isinstance(st.orelse[0], ast.Assign) and u(st.orelse[0].targets[0]) == pk \
-                and u(st.orelse[0].value) == f"self.params.{L}_patience":
+                and inl.text(st.orelse[0].value) == f"self.params.{L}_patience":
             chain.append("else-reset-patience")
     out["chain"] = chain
     ren = lambda s: s.replace(P + "_", "X_").replace(L + "_", "XX_").replace(rowvar, "ROW")
